@@ -132,3 +132,14 @@ package memtable
 //@ loop (*MemTablePool).GetMemTables#1
 //@   invariant[C05] 0 - 1 <= i && i < len(p.immutables) && len(result) == len(p.immutables) - i && len(result) >= 1 && result[0] == p.active
 //@   invariant[C05] forall j int :: 0 <= j && j < len(p.immutables) - 1 - i ==> result[1 + j] == p.immutables[len(p.immutables) - 1 - j]
+
+// ---- C07: sharing discipline of the pool
+//@ guarded (*MemTablePool).active by mu
+//@ guarded (*MemTablePool).immutables by mu
+
+//@ func (*MemTablePool).checkFlushConditionsLocked
+//@   requires p.active != nil && p.active.skipList != nil && lockstate(p.mu) >= 1
+//@   ensures[C07] true
+//@ func (*MemTablePool).checkFlushConditions
+//@   requires p.active != nil && p.active.skipList != nil && lockstate(p.mu) == 0
+//@   ensures[C07] true
